@@ -55,7 +55,8 @@ TRUSTED_BASE = [
     "Python sqlite3 (legacy isolation_level ''): implicit BEGIN before DML, none before SELECT; thread-local connections",
     "harness/tr/conc.py: reads the shape of the claim protocol (handler.py, conditions.py, orchestration.py, transaction.py "
     "acquire_claim, operations.py sweep, migrations.py key, complete_stage order, signal_stage buffer) into coq/gen/Gen_Conc.v",
-    "coq/model/Engine.v record types and acquire_claim / mutex_blocked / choice_claimed (validated by harness/engine_corr.py)",
+    "coq/model/Conc.v carries its own copy of the record types and of acquire_claim / mutex_blocked / choice_claimed of "
+    "coq/model/Engine.v (restricted to the fields the programs touch), validated here against the real threads",
 ]
 ASSUMPTIONS = [
     "every SELECT issued by one store API call is one snapshot (the handler's decisions use one SELECT of each call); thread "
@@ -618,17 +619,11 @@ def _cq_msg(p: Prepared, q: dict) -> str:
         return f"(MCompleteWorkflow {cq_Z(q.get('retry_count') or 0)})"
     if t in ("CompleteStage", "SkipStage", "CancelStage"):
         return f"(M{t} {i})"
-    if t in ("StartTask", "RunTask"):
-        return f"(M{t} {i} {cq_nat(q.get('task') or 0)})"
-    if t == "CompleteTask":
-        return f"(MCompleteTask {i} {cq_nat(q.get('task') or 0)} {q.get('status') or 'SUCCEEDED'})"
+    if t == "StartTask":
+        return f"(MStartTask {i} {cq_nat(q.get('task') or 0)})"
     if t == "SignalStage":
         return f"(MSignalStage {i} {cq_nat(0)} {cq_bool(bool(q.get('persistent')))})"
-    if t == "StartWorkflow":
-        return "MStartWorkflow"
-    if t == "CancelWorkflow":
-        return "MCancelWorkflow"
-    raise ValueError("message type outside the model: " + t)
+    return f"(MOther {cq_nat(MSG_CODE[t])} {i} {cq_nat(q.get('task') or 0)})"
 
 
 def _claims_of(p: Prepared, alpha: dict) -> list[tuple[bool, int, int]]:
@@ -713,7 +708,7 @@ def case_term(p: Prepared, st_term: str, w_term: str, o: dict) -> str:
         cq_list(cq_nat(i) for i in o["starts"]), cq_list(cq_nat(i) for i in o["pcs"]))
 
 
-REQ = "From Stab.model Require Import StatusM Engine Conc."
+REQ = "From Stab.model Require Import StatusM Conc."
 
 
 # ---------------------------------------------------------------------------------------------------------
@@ -869,8 +864,10 @@ def monitors(p: Prepared, r: dict) -> list[tuple[str, str]]:
         # after the drain: nothing left half-started; every stage ran (mutex: the waiting one does run after the holder)
         a_stages = {s["ref"]: s for s in r["alpha"]["stages"]}
         for ref, st in d["stages"].items():
-            if st in ("SUCCEEDED", "CANCELED", "SKIPPED"):
-                if st == "SUCCEEDED" and led.get((ref, 0), 0) != 1 and not _done_before(p, ref):
+            # a cancelled deferred-choice loser makes the engine finish the workflow CANCELED and cancel what has not run yet
+            # (final-status semantics, C05): only in a pure mutex family must the waiting stage run
+            if st == "SUCCEEDED" or (st == "CANCELED" and (spec[ref].get("choice") or (groups and d["wf"] == "CANCELED"))):
+                if st == "SUCCEEDED" and spec[ref].get("tasks") and led.get((ref, 0), 0) != 1 and not _done_before(p, ref):
                     out.append(("task:count", f"stage {ref} SUCCEEDED with {led.get((ref, 0), 0)} executions of its task after the race"))
                 continue
             ra = a_stages.get(ref, {})
